@@ -45,6 +45,15 @@ def check(ctx):
                 lines.append("%s fcflags=128 buf=%d" % (l, b))
     ctx.coverage["exhaustive"] = True
     fw.run_suite(ctx, exe, "S-gen/dump-sizes", lines, "frame serialisation")
+    # objects whose encoding is longer than 64 KiB: exact buffer, one short, far too short, generous
+    big = []
+    for kind in ("beacon", "probe_req", "deauth", "timing_ad"):
+        n = 258 if kind != "timing_ad" else 300
+        ops = ",".join("a:%d:%s" % (rnd.choice([221, 45, 61, 127]), bytes(rnd.getrandbits(8) for _ in range(255)).hex()) for _ in range(n))
+        base = c03.gen_line(rnd, kind, ops=False) + " ops=" + ops
+        L = int(diffrun.run_driver([base])[0].split(" len=")[1].split()[0])
+        big += ["%s buf=%d" % (base, b) for b in (L, L - 1, L - 65536, 65535, 65536, L + 7)]
+    fw.run_suite(ctx, exe, "S-gen/dump-beyond-64KiB", big, "serialisation of a frame longer than 64 KiB")
     # the same after short call sequences on every kind, into buffers around the interesting sizes
     fw.run_suite(ctx, exe, "S-gen/api-sequences-dump", c03.api_lines(random.Random(ctx.seed + 6), 60 if ctx.tier == "quick" else 1000, bufs=True), "frame serialisation after a short call sequence")
     tl = []
